@@ -367,7 +367,7 @@ static void build(void)
                 for (int api = 0; api < NAPI; api++) {
                   int deadline = tier ? dl : (dl ? 2 : 0);
                   int size = has_size ? d_sizes[tier][si] : 0;
-                  if (!tier && api == API_RUNEX && (sm == SM_FAILPOS || k > 1)) continue;
+                  if (!tier && api == API_RUNEX && ((sm == SM_FAILPOS && size > 1) || k > 1)) continue;
                   /* every blocked poll under a deadline has one alternative per elapsed millisecond: keep that product to small payloads in the quick tier */
                   if (!tier && deadline && ((size > 1 && !(size == CAP && sm == SM_REC)) || sm == SM_FAILPOS || sm == SM_STR_NULL || k > 1)) continue;
                   if (!tier && size > CAP && (sm == SM_FAILNEG || sm == SM_FAILPOS) && k > 2) continue;
